@@ -14,6 +14,7 @@ import (
 	"github.com/go-git/go-git/v5/plumbing"
 	"pgregory.net/rapid"
 
+	"github.com/MichaelMure/git-bug/cache"
 	"github.com/MichaelMure/git-bug/entities/bug"
 	"github.com/MichaelMure/git-bug/entities/identity"
 	"github.com/MichaelMure/git-bug/entity"
@@ -438,6 +439,89 @@ func runC08(tb report.TB, rep *report.Reporter, c c08Case) {
 			fail("merge-ref-disagrees-with-report", detail(""))
 			return
 		}
+	}
+	if panicked != "" || prop != "C08" {
+		return
+	}
+	// ---- a pull through the cache of another replica agrees. That replica met the author at the first version,
+	// its cache was built then (or opened again since); the later versions and the commit arrive in one pull:
+	// the keys in force are those of the history as it is after the pull.
+	idRef := "refs/identities/" + string(author.Id())
+	idCommits, err := repo.ListCommits(idRef)
+	if err != nil || len(idCommits) == 0 {
+		tb.Fatalf("harness: identity commits: %v", err)
+	}
+	first, last := idCommits[0], idCommits[len(idCommits)-1]
+	if cm, err := repo.ReadCommit(first); err != nil || len(cm.Parents) != 0 {
+		first, last = last, first
+	}
+	_ = repo.RemoveRef("refs/bugs/" + bugId)
+	_ = repo.RemoveRef("refs/remotes/origin/bugs/" + bugId)
+	if err := repo.UpdateRef(idRef, first); err != nil {
+		tb.Fatalf("harness: %v", err)
+	}
+	hostDir := mkdirTemp("c08h-")
+	defer os.RemoveAll(hostDir)
+	host, err := repository.InitGoGitRepo(hostDir, "git-bug")
+	if err != nil {
+		tb.Fatalf("harness: %v", err)
+	}
+	defer host.Close()
+	if err := host.AddRemote("origin", dir); err != nil {
+		tb.Fatalf("harness: %v", err)
+	}
+	if err := identity.Pull(host, "origin"); err != nil {
+		tb.Fatalf("harness: identity pull: %v", err)
+	}
+	hostUser, err := identity.NewIdentity(host, "host user", "h@example.org")
+	if err == nil {
+		err = hostUser.Commit(host)
+	}
+	if err == nil {
+		err = identity.SetUserIdentity(host, hostUser)
+	}
+	if err != nil {
+		tb.Fatalf("harness: host user: %v", err)
+	}
+	rc, err := cache.NewRepoCacheNoEvents(host)
+	if err != nil {
+		tb.Fatalf("harness: host cache: %v", err)
+	}
+	defer func() { _ = rc.Close() }()
+	loaded := c.Seed%3 == 0
+	if loaded {
+		_, _ = rc.Identities().Resolve(author.Id())
+	}
+	if c.Seed%3 == 1 {
+		// the cache is closed and opened again: loaded from its files this time
+		_ = rc.Close()
+		if rc, err = cache.NewRepoCacheNoEvents(host); err != nil {
+			tb.Fatalf("harness: host cache: %v", err)
+		}
+	}
+	if err := repo.UpdateRef(idRef, last); err != nil {
+		tb.Fatalf("harness: %v", err)
+	}
+	if err := repo.UpdateRef("refs/bugs/"+bugId, commit); err != nil {
+		tb.Fatalf("harness: %v", err)
+	}
+	if _, err := rc.Fetch("origin"); err != nil {
+		tb.Fatalf("harness: fetch: %v", err)
+	}
+	var viaCache *entity.MergeResult
+	for res := range rc.MergeAll("origin") {
+		r := res
+		if string(res.Id) == bugId {
+			viaCache = &r
+		}
+	}
+	rep.Class("pulled-through-a-cache-that-knew-the-first-version", 1)
+	if viaCache == nil {
+		fail("cache-pull-no-report", detail(""))
+		return
+	}
+	if accepted := viaCache.Err == nil && viaCache.Status == entity.MergeStatusNew; accepted != wantAccept {
+		fail("cache-pull-disagrees/"+variant, detail(fmt.Sprintf("the other replica's cache (author loaded: %v) pulls the identity's %d versions and the commit together: status=%v err=%v reason=%q", loaded, len(ref), viaCache.Status, viaCache.Err, viaCache.Reason)))
 	}
 }
 
